@@ -302,6 +302,11 @@ def check_c15(tier, replay=None):
             else:
                 s = "".join(chr(rng.choice([rng.randrange(32, 127), rng.randrange(0xA1, 0x800), 0x1F600])) for _ in range(rng.randrange(1, 40)))
             add("line", s, "arbitrary string")
+        # position commands whose FEN carries one fault (the FEN mutator of C12: digit splits at any offset, bad fields, alias characters ...)
+        for _ in range(6000 if T else 700):
+            bad = mutate(rng, rng.choice(fens))
+            tail = rng.choice(["", "", " moves", " moves e2e4", " moves e7e5 g1f3"])
+            add("line", "position fen " + bad + tail, "position command with a single-fault FEN")
         for s in ["", " ", "\n", "go", "go searchmoves", "position", "position fen", "position startpos moves", "setoption", "setoption name", "debug", "register",
                   "register name a", "setoption name x value", "go depth", "go depth 3 depth 4", "go wtime -100", "position startpos e2e4", "go ponder infinite",
                   "position fen startpos", "uci uci"]:
@@ -555,6 +560,11 @@ def check_c17(tier, replay=None):
             games = []
             for _ in range(rng.choice([1, 1, 2, 3, 4])):
                 fen = rng.choice([START_FEN, START_FEN] + CASTLE_FENS)
+                if rng.random() < 0.25:
+                    # a game that starts late: move numbers of three to five digits in the movetext (250.., 9990.., 65530..)
+                    f6 = rng.choice(CASTLE_FENS).split(" ")
+                    f6[5] = str(rng.choice([95, 250, 254, 990, 9995, 32760, 65530]))
+                    fen = " ".join(f6)
                 tags = [["Event", rng.choice(["Rated Blitz game", "Casual game", "?"])], ["Site", "https://lichess.org/" + "".join(rng.choice("abcdefgh12345678") for _ in range(8))],
                         ["White", rng.choice(["alice", "Bob_99", "?"])], ["Black", rng.choice(["carol", "dave"])]]
                 res = rng.choice(["1-0", "0-1", "1/2-1/2", "*"])
